@@ -148,7 +148,8 @@ def run(ctx):
     pr = P.Prov(disp)
     fls = L.for_loops(disp, pr)
     pushes = [(bi, t) for bi, t in disp.calls() if t["callee"].get("name") == "push" and bi in disp.cfg.reachable]
-    ctx.floor("token pushes in Display for HandRange", len(pushes), 10)
+    # (the reference tree has 19; a formatter that builds its tokens in one helper still pushes once per pass and for the leftovers)
+    ctx.floor("token pushes in Display for HandRange", len(pushes), 4)
     badp = 0
     for bi, t in pushes:
         for lp in fls:
